@@ -884,6 +884,24 @@ for _n in ("not", "neg", "floor", "round"):
     RULES[_n] = _un(_n)
 
 
+@rule("ceil")
+def _ceil(trace, args, avals, params, prim):
+    """ceil(x) = -floor(-x)"""
+    a = to_obj(args[0])
+
+    def f(v):
+        v = force(v)
+        if isinstance(v, (XR, float, Opaque)):
+            raise Unsupported("ceil of non-finite")
+        if not is_sym(v):
+            return Fraction(math.ceil(v))
+        if isinstance(v, z3.ExprRef) and z3.is_int(v):
+            return v
+        return -z3.ToReal(z3.ToInt(-zr(v)))
+
+    return (np.asarray(vec(f, 1)(a), dtype=object).reshape(a.shape), avals[0])
+
+
 def _mk_uf(name):
     def r(trace, args, avals, params, prim):
         a = to_obj(args[0])
